@@ -37,18 +37,17 @@ STATEMENT_STATUS: Dict[str, str] = {
 
 # (class, exception, innermost function, fault kind, note)
 OPEN: List[Tuple[str, str, str, str, str]] = [
-    ("budget", "", "", "extreme",
-     "layout analysis of text scaled to astronomic coordinates (e.g. form XObject /Matrix [1e30 ...] analysed with "
-     "LAParams(all_texts=True)): utils.Plane.add enumerates every grid cell the text line covers - work unbounded in the "
-     "input size.  Only the option variant text_la reaches it through the object-level faults; the repair belongs to "
-     "utils.Plane (keep objects that span more than N cells in an overflow list), which is C20's proved model, so it "
-     "is recorded here instead of patched"),
 ]
 
 # open findings that are specific to one entry-point variant: the classifier also requires that entry
 OPEN_ENTRY: Dict[Tuple[str, str, str, str], Tuple[str, ...]] = {
-    ("budget", "", "", "extreme"): ("text_la",),
 }
+
+# round 3: `budget-extreme` (utils.Plane.add enumerated every grid cell of text scaled to astronomic coordinates) was
+# closed by /repo main aa4d991 "Plane bounds the grid work per operation" (C20 builder); not a classifier any more.
+CLOSED_ROUND3: List[Tuple[str, str, str, str, str]] = [
+    ("budget", "", "", "extreme", "closed by aa4d991 (utils.Plane overflow list, MAXCELLS)"),
+]
 
 # Findings of round 1 that no longer occur (full enumeration on the integrated tree + round-2 fixes);
 # kept for the record only - they are NOT classifiers any more: a recurrence is a VIOLATION.
@@ -140,10 +139,11 @@ def fragment() -> Dict[str, Any]:
 
 
 FIXED: List[str] = [
+    "fixed: property=C13 aa4d991 work budget: utils.Plane.add enumerated every grid cell of text scaled to astronomic coordinates (form /Matrix 1e30 with all_texts, or a huge cm in a content stream); Plane now bounds the grid work per operation (fix by the Plane/C20 owner)",
     "fixed: property=C13 b008bbf stream whose /Length refers to the stream itself: RecursionError in getobj",
     "fixed: property=C13 9e1c212 negative or oversized /Length: wrong data / OverflowError",
     "fixed: property=C13 be941ec inline image with /F that is neither name nor non-empty array: TypeError/IndexError/KeyError",
-    "fixed: property=C13 0600ab2 number tree (PageLabels) with cyclic /Kids: RecursionError",
+    "fixed: property=C13 4a2cf3a number tree (PageLabels) with cyclic /Kids: RecursionError",
     "fixed: property=C13 8b1ab59 /Prev or /XRefStm beyond the largest file offset: OverflowError from seek",
     "fixed: property=C13 7cdbd5f colour space with absurd /N: MemoryError/OverflowError in _initial_color",
     "fixed: property=C13 a2c64ac absurd predictor /Columns: MemoryError from PDFStream.decode",
